@@ -4,13 +4,14 @@ Depth-1 state space, enumerated completely (no sampling):
 
  (a) every string of length <= L over a 34-symbol alphabet (letters A/E, digits, space, '.', every
      ASCII and typographic operator, brackets, separators, ':', both quotes, '#', '$', '!', '?'),
-     L = 4 quick / 5 thorough, plus every longer string up to length 6 quick / 7 thorough over the
+     L = 4 quick / 5 thorough, plus every longer string up to length 7 (both tiers) over the
      12-symbol sub-alphabet that drives the scanner's state
      (both quotes, four brackets, 'E', a digit, a sign, ',', ':', ' ');
  (b) every distinct formula text `Cell.formula` returns for every cell of every readable fixture;
  (c) every formula text rendered from C08's generated expression families (mc.ref_formula, if
-     present) and the formula texts read back from small documents built through the public API in
-     which a header label of a referenced table belongs to one of the classes
+     present), every reference text the reader prints over C09's naming configurations
+     (mc.ref_refs, if present) and the formula texts read back from small documents built through
+     the public API in which a header label of a referenced table belongs to one of the classes
      {plain, space, operator character, apostrophe, double quote} with / without a table prefix.
 
 Oracle (exactly the statement): only TokenizerError may escape `Tokenizer(text)`; on success
@@ -21,6 +22,7 @@ from __future__ import annotations
 
 import itertools
 import os
+import re
 import sys
 
 from mc.evidence import Part, Run, parse_args, run_replay
@@ -100,28 +102,66 @@ def _loss_class(s, joined):
 
 
 OPENERS = "(,;+-*/^&=<>%×÷≥≤≠{"
+_QNAME = r"'(?:[^']|'')*'"
+_Q_AFTER_PREFIX = re.compile("::" + _QNAME)
+_Q_AFTER_COLON = re.compile("(?<=[^':]):" + _QNAME)
+
+
+def _neutralise_dquotes(text):
+    """Replace every double quote that follows operand text (i.e. sits inside a bare name) by '_'."""
+    out = []
+    i = 0
+    hit = False
+    while i < len(text):
+        if text[i] == '"':
+            prev = out[-1] if out else "("
+            if prev in OPENERS:
+                segs, _ = quoted_segments(text[i:])
+                if segs and segs[0][0] == 0:
+                    out.append(text[i:i + segs[0][1]])
+                    i += segs[0][1]
+                    continue
+            out.append("_")
+            hit = True
+        else:
+            out.append(text[i])
+        i += 1
+    return "".join(out), hit
 
 
 def diagnose(text):
-    """Coarse, tokenizer-independent description of why a reader-produced text could be refused;
-    part of the failure identity so that different refusals stay distinguishable."""
-    if "::'" in text:
-        return "quoted-name-after-table-prefix"
-    if "'''" in text:
-        return "tripled-apostrophe-in-name"
-    i = 0
-    while i < len(text):
-        if text[i] == '"':
-            prev = text[i - 1] if i else "("
-            if prev not in OPENERS:
-                return "double-quote-in-name"
-            segs, _ = quoted_segments(text[i:])
-            if not segs or segs[0][0] != 0:
-                return "unterminated-string"
-            i += segs[0][1]
-        else:
-            i += 1
-    return "other"
+    """Why could a reader-produced text be refused? Looks for the reader's known spellings of header
+    labels that are not at the start of an operand (quoted name behind a table prefix or behind the
+    ':' of a span, apostrophe tripled inside a bare name, double quote inside a bare name), names
+    the first one found, and returns the text with all of them neutralised. The caller only
+    accepts the diagnosis if the neutralised text is tokenized - otherwise the refusal has another
+    cause and the pattern is 'other'. -> (pattern, neutralised text)"""
+    reasons = []
+    t = text
+    if _Q_AFTER_PREFIX.search(t):
+        reasons.append("quoted-name-after-table-prefix")
+        t = _Q_AFTER_PREFIX.sub("::Q", t)
+    if _Q_AFTER_COLON.search(t):
+        reasons.append("quoted-name-after-bare-span-start")
+        t = _Q_AFTER_COLON.sub(":Q", t)
+    if "'''" in t:
+        reasons.append("tripled-apostrophe-in-name")
+        t = t.replace("'''", "_")
+    t2, hit = _neutralise_dquotes(t)
+    if hit:
+        reasons.append("double-quote-in-name")
+        t = t2
+    return (reasons[0] if reasons else "other"), t
+
+
+def refusal_pattern(text):
+    pattern, neutral = diagnose(text)
+    if pattern != "other":
+        try:
+            Tokenizer(neutral)
+        except Exception:  # noqa: BLE001 - the known spellings do not explain this refusal
+            return "other"
+    return pattern
 
 
 def eval_text(s, must_accept=False, where=None):
@@ -131,7 +171,7 @@ def eval_text(s, must_accept=False, where=None):
         items = Tokenizer(s).items
     except TokenizerError as e:
         if must_accept:
-            ident = {"mechanism": "reader-accept", "pattern": diagnose(s), "outcome": "TokenizerError"}
+            ident = {"mechanism": "reader-accept", "pattern": refusal_pattern(s), "outcome": "TokenizerError"}
             ident.update(where or {})
             return "rejected", [(ident, f"reader-produced formula text {s!r} is refused by the tokenizer: {e}")]
         return "rejected:" + _site(e), ()
@@ -286,6 +326,20 @@ def work_generated(task):
     return d
 
 
+def work_refs(task):
+    """All reference texts the reader prints for one C09 naming configuration (mc.ref_refs)."""
+    from mc import ref_refs
+
+    part = Part()
+    texts = ref_refs._texts_of_config(task)
+    for text in texts:
+        part.count("c_reference_texts")
+        judge_reader_text(part, text, "c", "ref_refs")
+    d = part.dump()
+    d["texts"] = dict.fromkeys(texts, "")
+    return d
+
+
 LABEL_POOL = {  # class -> representatives (the seed picks one)
     "plain": ["plain", "Total", "x"],
     "space": ["a b", "unit price", "Q 1"],
@@ -389,7 +443,7 @@ def main():
     thorough = args.tier == "thorough"
     alpha, sub = alphabets(args.seed)
     L = 5 if thorough else 4
-    LSUB = 7 if thorough else 6
+    LSUB = 7  # both tiers
 
     # (b)+(c) first: they contain the longest single tasks
     from mc.snapshot import readable_fixtures
@@ -404,6 +458,16 @@ def main():
     n_gen_shards = 16 if thorough else 4
     if have_gen:
         tasks += [(work_generated, (args.tier, args.seed, i, n_gen_shards)) for i in range(n_gen_shards)]
+    try:
+        from mc import ref_refs
+
+        ref_cfgs = [(n, sch, args.seed) for n, sch in ref_refs.text_configs(args.tier)]
+        ref_refs._texts_of_config  # noqa: B018 - presence check
+        have_refs = True
+    except (ImportError, AttributeError):
+        ref_cfgs = []
+        have_refs = False
+    tasks += [(work_refs, cfg) for cfg in ref_cfgs]
     labels = [reps[args.seed % len(reps)] for reps in LABEL_POOL.values()]
     tasks += [(work_api_doc, (lab, dup)) for lab in labels for dup in (False, True)]
     n_slow = len(tasks)
@@ -413,6 +477,7 @@ def main():
     fixture_texts = {}
     gen_texts = set()
     api_texts = set()
+    ref_texts = set()
     pending_samples = []
     pending_failures = []
     for res in pmap(_dispatch, tasks, args.jobs, chunksize=1):
@@ -427,6 +492,8 @@ def main():
                     fixture_texts.setdefault(k, v)
             elif which == "work_generated":
                 gen_texts.update(texts)
+            elif which == "work_refs":
+                ref_texts.update(texts)
             else:
                 api_texts.update(texts)
 
@@ -447,6 +514,9 @@ def main():
     run.count("c_distinct_generated_texts", len(gen_texts))
     run.count("evaluations", len(gen_texts))
     run.count("c_distinct_api_texts", len(api_texts))
+    run.count("c_distinct_reference_texts", len(ref_texts))
+    run.count("c_reference_configurations", len(ref_cfgs))
+    run.count("evaluations", len(ref_texts))
     # samples: chosen after the run in a fixed order (workers finish in any order)
     sa = sorted((x for x in pending_samples if x.get("part") == "a"), key=lambda x: (len(x["accepted_with_quoted_segment"]), x["accepted_with_quoted_segment"]))
     for x in sa[:2] + sa[-2:]:
@@ -457,6 +527,8 @@ def main():
         run.sample({"part": "b", "text": text, "at": fixture_texts[text]})
     for text in sorted(gen_texts)[:: max(1, len(gen_texts) // 2)][:2]:
         run.sample({"part": "c", "origin": "ref_formula", "text": text})
+    for text in sorted(ref_texts)[:: max(1, len(ref_texts) // 2)][:2]:
+        run.sample({"part": "c", "origin": "ref_refs", "text": text})
 
     # ---- coverage floors
     c = run.counters
@@ -478,14 +550,19 @@ def main():
     if have_gen:
         run.floor(">= 1000 distinct generated formula texts (mc.ref_formula) were evaluated", len(gen_texts) >= 1000)
     else:
-        run.cap("mc.ref_formula not importable: part (c) covered only the API-built documents (0 generated texts)")
+        run.cap("mc.ref_formula not importable: 0 generated expression texts in part (c)")
+    if have_refs:
+        run.floor(">= 1000 distinct reference texts of C09's configurations (mc.ref_refs) were evaluated", len(ref_texts) >= 1000)
+    else:
+        run.cap("mc.ref_refs not importable: C09's configurations are represented only by the API-built documents in part (c)")
     run.assume("strings longer than the bounds, and characters outside the 34-symbol alphabet (each class of scanner-relevant "
                "character is represented; letters, digits and inert characters by one representative rotated by the seed), are not enumerated")
-    run.assume("part (c) takes C08's rendered texts from mc.ref_formula.rendered_formulas; C09's reference configurations are "
-               "represented by the API-built two-table documents (label classes x prefix present/absent)")
+    run.assume("part (c) takes C08's rendered formulas from mc.ref_formula.rendered_formulas and C09's rendered references from "
+               "mc.ref_refs (one text per reference, not embedded in a larger expression); the API-built two-table documents add "
+               "the label classes x prefix present/absent through the public write path")
     accepted = o["accepted"] + o["accepted+quoted"]
     cov = {
-        "distinct_nontrivial": got_full + got_sub + len(fixture_texts) + len(gen_texts) + len(api_texts),
+        "distinct_nontrivial": got_full + got_sub + len(fixture_texts) + len(gen_texts) + len(ref_texts) + len(api_texts),
         "rule": "distinct input strings: the two string families are disjoint by length, fixture/generated/API texts are "
                 "de-duplicated before counting; every one is run through the real Tokenizer and the full oracle",
         "strings_accepted_in_part_a": accepted,
@@ -493,6 +570,7 @@ def main():
         "strings_rejected_in_part_a": sum(v for k, v in o.items() if k.startswith("rejected:")),
         "bounds": {"alphabet34_max_len": L, "alphabet12_max_len": LSUB, "alphabet34": "".join(alpha), "alphabet12": "".join(sub)},
         "generated_source_present": have_gen,
+        "reference_source_present": have_refs,
         "slow_tasks": n_slow,
         "exhaustive": not run.caps,
     }
